@@ -1267,7 +1267,7 @@ func c05FullRange(c *Ctx, r *Report, rule string) {
 					continue // success return
 				}
 				nerr++
-				for _, cj := range rs.state {
+				for _, cj := range dnfAnd(rs.state, nf.dnf(true)) { // the error is non-nil on this path
 					if !infeasible(cj.with(atomGE(q.a, affConst(lim.lo)), atomLE(q.a, affConst(lim.hi)))) {
 						bad = fmt.Sprintf("error return at %s reachable with %s", c.pos(rs.instr.Pos()), truncate(cj.String(), 160))
 					}
@@ -1341,7 +1341,7 @@ func errFromCtor(split *ssa.Function, v ssa.Value, depth int) bool {
 // its error returns is reachable (whatever address the field has: a field may end at the very
 // last register 65535).
 func c05Validate(c *Ctx, r *Report) {
-	fn := c.fnOpt("", "*Field.Validate")
+	fn := thinTarget(c.fnOpt("", "*Field.Validate"))
 	r.instance("R5.9", 1)
 	if fn == nil {
 		r.undecided("R5.9", "modbus.Field.Validate", "Field.Validate not found", "-")
